@@ -1,7 +1,8 @@
 //! Exercises the logos runtime library directly (no model here; the model runs in Lean):
 //!   READ <hexsrc> <off> <size>            Source::read::<&[u8; size]> (size 0 = u8) on str and [u8]
 //!   BUMP <s|b> <hexsrc> <nexts> <n>       n decimal; run `nexts` calls of next(), then bump(n) under catch_unwind
-//!   API  <hexsrc> <partial 0|1> <ops..>   history of Lexer API calls on a pool of lexers of two token types
+//!   API  <hexsrc> <partial 0|1> <ops..>   history of Lexer API calls on a pool of lexers of two token types (str source)
+//!   APIB <hexsrc> <partial 0|1> <ops..>   the same over a [u8] source (TokC / TokD)
 use logos::{Lexer, Logos, Source};
 use std::io::{BufRead, Write};
 use std::panic::{catch_unwind, AssertUnwindSafe};
@@ -32,6 +33,17 @@ pub enum TokB {
 
 #[derive(Logos, Debug, PartialEq, Clone)]
 #[logos(utf8 = false)]
+#[logos(extras = u32)]
+pub enum TokD {
+    #[regex(b"[a-z\x80-\xff]+")]
+    Run,
+    #[regex(b"[^a-z\x80-\xff]")]
+    Other,
+}
+
+#[derive(Logos, Debug, PartialEq, Clone)]
+#[logos(utf8 = false)]
+#[logos(extras = u32)]
 pub enum TokC {
     #[regex("[a-z]+")]
     Word,
@@ -140,30 +152,6 @@ fn do_bump_bytes(src: &[u8], nexts: usize, n: usize) -> String {
     out
 }
 
-enum AnyLex<'s> {
-    A(logos::SpannedIter<'s, TokA>),
-    B(logos::SpannedIter<'s, TokB>),
-}
-
-fn state<'s>(l: &AnyLex<'s>, src: &'s str) -> String {
-    macro_rules! st {
-        ($x:expr, $t:literal) => {{
-            let sp = $x.span();
-            let ok = sp.start <= sp.end && sp.end <= src.len() && src.is_char_boundary(sp.start) && src.is_char_boundary(sp.end);
-            if ok {
-                let good = $x.slice() == &src[sp.clone()] && $x.remainder() == &src[sp.end..];
-                format!("{}:{}-{}:x{}{}", $t, sp.start, sp.end, $x.extras, if good { "" } else { ":BADSLICE" })
-            } else {
-                format!("{}:{}-{}:BADSPAN", $t, sp.start, sp.end)
-            }
-        }};
-    }
-    match l {
-        AnyLex::A(x) => st!(x, "A"),
-        AnyLex::B(x) => st!(x, "B"),
-    }
-}
-
 fn item<T: std::fmt::Debug, E>(r: Option<Result<T, E>>) -> String {
     match r {
         Some(Ok(t)) => format!("{:?}", t),
@@ -172,65 +160,97 @@ fn item<T: std::fmt::Debug, E>(r: Option<Result<T, E>>) -> String {
     }
 }
 
-fn do_api(src: &str, partial: bool, ops: &[&str]) -> String {
-    let first = if partial { Lexer::<TokA>::partial_with_extras(src, 7) } else { Lexer::<TokA>::with_extras(src, 7) };
-    let mut pool: Vec<AnyLex> = vec![AnyLex::A(first.spanned())];
-    let mut out = String::new();
-    let mut i = 0;
-    while i < ops.len() {
-        let op = ops[i];
-        let idx: usize = ops.get(i + 1).and_then(|s| s.parse().ok()).unwrap_or(0) % pool.len();
-        match op {
-            "next" => {
-                let r = match &mut pool[idx] {
-                    AnyLex::A(x) => item((**x).next()),
-                    AnyLex::B(x) => item((**x).next()),
-                };
-                out.push_str(&format!("{}={} ", r, state(&pool[idx], src)));
-                i += 2;
+macro_rules! api_impl {
+    ($fname:ident, $any:ident, $state:ident, $ta:ty, $tb:ty, $src:ty, $isb:expr) => {
+        enum $any<'s> {
+            A(logos::SpannedIter<'s, $ta>),
+            B(logos::SpannedIter<'s, $tb>),
+        }
+
+        fn $state<'s>(l: &$any<'s>, src: &'s $src) -> String {
+            macro_rules! st {
+                ($x:expr, $t:literal) => {{
+                    let sp = $x.span();
+                    let isb: fn(&$src, usize) -> bool = $isb;
+                    let ok = sp.start <= sp.end && sp.end <= src.len() && isb(src, sp.start) && isb(src, sp.end);
+                    if ok {
+                        let good = $x.slice() == &src[sp.clone()] && $x.remainder() == &src[sp.end..];
+                        format!("{}:{}-{}:x{}{}", $t, sp.start, sp.end, $x.extras, if good { "" } else { ":BADSLICE" })
+                    } else {
+                        format!("{}:{}-{}:BADSPAN", $t, sp.start, sp.end)
+                    }
+                }};
             }
-            "snext" => {
-                let r = match &mut pool[idx] {
-                    AnyLex::A(x) => x.next().map(|(t, s)| format!("{}@{}-{}", item(Some(t)), s.start, s.end)).unwrap_or("None".into()),
-                    AnyLex::B(x) => x.next().map(|(t, s)| format!("{}@{}-{}", item(Some(t)), s.start, s.end)).unwrap_or("None".into()),
-                };
-                out.push_str(&format!("{}={} ", r, state(&pool[idx], src)));
-                i += 2;
-            }
-            "bump" => {
-                let n: usize = ops[i + 2].parse().unwrap();
-                let r = catch_unwind(AssertUnwindSafe(|| match &mut pool[idx] {
-                    AnyLex::A(x) => x.bump(n),
-                    AnyLex::B(x) => x.bump(n),
-                }));
-                out.push_str(&format!("{}={} ", if r.is_ok() { "ok" } else { "panic" }, state(&pool[idx], src)));
-                i += 3;
-            }
-            "clone" => {
-                let c = match &pool[idx] {
-                    AnyLex::A(x) => AnyLex::A(x.clone()),
-                    AnyLex::B(x) => AnyLex::B(x.clone()),
-                };
-                out.push_str(&format!("clone={} ", state(&c, src)));
-                pool.push(c);
-                i += 2;
-            }
-            "morph" => {
-                let m = match &pool[idx] {
-                    AnyLex::A(x) => AnyLex::B((**x).clone().morph::<TokB>().spanned()),
-                    AnyLex::B(x) => AnyLex::A((**x).clone().morph::<TokA>().spanned()),
-                };
-                out.push_str(&format!("morph={} ", state(&m, src)));
-                pool[idx] = m;
-                i += 2;
-            }
-            _ => {
-                i += 1;
+            match l {
+                $any::A(x) => st!(x, "A"),
+                $any::B(x) => st!(x, "B"),
             }
         }
-    }
-    out.trim_end().to_string()
+
+        fn $fname(src: &$src, partial: bool, ops: &[&str]) -> String {
+            let first = if partial { Lexer::<$ta>::partial_with_extras(src, 7) } else { Lexer::<$ta>::with_extras(src, 7) };
+            let mut pool: Vec<$any> = vec![$any::A(first.spanned())];
+            let mut out = String::new();
+            let mut i = 0;
+            while i < ops.len() {
+                let op = ops[i];
+                let idx: usize = ops.get(i + 1).and_then(|s| s.parse().ok()).unwrap_or(0) % pool.len();
+                match op {
+                    "next" => {
+                        let r = match &mut pool[idx] {
+                            $any::A(x) => item((**x).next()),
+                            $any::B(x) => item((**x).next()),
+                        };
+                        out.push_str(&format!("{}={} ", r, $state(&pool[idx], src)));
+                        i += 2;
+                    }
+                    "snext" => {
+                        let r = match &mut pool[idx] {
+                            $any::A(x) => x.next().map(|(t, s)| format!("{}@{}-{}", item(Some(t)), s.start, s.end)).unwrap_or("None".into()),
+                            $any::B(x) => x.next().map(|(t, s)| format!("{}@{}-{}", item(Some(t)), s.start, s.end)).unwrap_or("None".into()),
+                        };
+                        out.push_str(&format!("{}={} ", r, $state(&pool[idx], src)));
+                        i += 2;
+                    }
+                    "bump" => {
+                        let n: usize = ops[i + 2].parse().unwrap();
+                        let r = catch_unwind(AssertUnwindSafe(|| match &mut pool[idx] {
+                            $any::A(x) => x.bump(n),
+                            $any::B(x) => x.bump(n),
+                        }));
+                        out.push_str(&format!("{}={} ", if r.is_ok() { "ok" } else { "panic" }, $state(&pool[idx], src)));
+                        i += 3;
+                    }
+                    "clone" => {
+                        let c = match &pool[idx] {
+                            $any::A(x) => $any::A(x.clone()),
+                            $any::B(x) => $any::B(x.clone()),
+                        };
+                        out.push_str(&format!("clone={} ", $state(&c, src)));
+                        pool.push(c);
+                        i += 2;
+                    }
+                    "morph" => {
+                        let m = match &pool[idx] {
+                            $any::A(x) => $any::B((**x).clone().morph::<$tb>().spanned()),
+                            $any::B(x) => $any::A((**x).clone().morph::<$ta>().spanned()),
+                        };
+                        out.push_str(&format!("morph={} ", $state(&m, src)));
+                        pool[idx] = m;
+                        i += 2;
+                    }
+                    _ => {
+                        i += 1;
+                    }
+                }
+            }
+            out.trim_end().to_string()
+        }
+    };
 }
+
+api_impl!(do_api, AnyLex, state, TokA, TokB, str, |s, i| s.is_char_boundary(i));
+api_impl!(do_api_b, AnyLexB, state_b, TokC, TokD, [u8], |s, i| i <= s.len());
 
 fn main() {
     std::panic::set_hook(Box::new(|_| {}));
@@ -264,6 +284,11 @@ fn main() {
                     }
                     Err(_) => "NOTUTF8".into(),
                 }
+            }
+            "APIB" => {
+                let src = unhex(t[1]);
+                let r = catch_unwind(AssertUnwindSafe(|| do_api_b(&src, t[2] == "1", &t[3..])));
+                r.unwrap_or_else(|_| "PANIC".into())
             }
             _ => "BADCMD".into(),
         };
